@@ -102,7 +102,7 @@ def stringvalue(string):
     return string.replace('\\' + string[0], string[0])[1:-1]
 
 
-_match_forbidden_in_uri = re.compile(r'''.*?[\(\)\s\;,'"\x00-\x1f\x7f]''', re.U).match
+_match_forbidden_in_uri = re.compile(r'''.*?[\(\)\s\;,'"\x00-\x1f\x7f]|.*\\$''', re.U | re.S).match
 
 
 def uri(value):
